@@ -28,6 +28,11 @@ def jobs(tier, seed):
                  scheds=scale(tier, 2, 4), lazy=[0, 50, 80, 30], p_fail=0.1, name="free")
     js += batches("orders", scale(tier, 70, 1500), scale(tier, 5, 40), gen="dag", P=dict(PC, nmax=5, p_items=0.0), gseed=seed + 1,
                   max_orders=scale(tier, 80, 720), max_completions=scale(tier, 6, 7), p_fail=0.05, name="orders")
+    # deeply nested joins over few variable names: the shapes in which merged context lists disagree on order
+    js += batches("orders", scale(tier, 60, 1500), scale(tier, 4, 40), gen="dag", gseed=seed + 2, p_fail=0.0,
+                  P=dict(PC, nmin=5, nmax=7, p_join=0.95, p_pub=0.9, p_conflict=0.95, p_items=0.0, p_retry=0.0, p_fail_cmd=0.0,
+                         p_res_cond=0.0, p_delay=0.0),
+                  max_orders=scale(tier, 60, 400), max_completions=scale(tier, 7, 8), name="nested-joins")
     return js
 
 
